@@ -140,6 +140,16 @@ def check_remove_output(ctx, rng):
         refused = (kind != "ok" and res == "PromptError")
         ctx.corr("Checkout.checkout (empty target)~checkout(obj=None): refused iff some file is unrecoverable", case,
                  refused, any(not v for v in recoverable.values()))
+        # Checkout.checkoutNone (the deletion loop with the directory itself last): completed or refused; when it completes nothing
+        # is left, when it is refused every file that is gone was recoverable (the order of the files is the library's own)
+        keys = sorted(rel for rel, b in before_bytes.items() if b is not None)
+        ans = ctx.driver.ask({"op": "checkout_none", "dir_cached": os.path.exists(sc.cache_path(t1)),
+                              "ws": [{"key": rel.split("/"), "oid": "ok" if recoverable[rel] else "lost:" + rel} for rel in keys],
+                              "cache": ["ok"], "order": ["ROOT"] + [rel.split("/") for rel in keys]})
+        left_impl = sorted(rel for rel, b in after_bytes.items() if b is not None)
+        ctx.corr("Checkout.checkoutNone~checkout(obj=None) (completed; nothing left when completed)", case,
+                 {"completed": not refused, "empty": not left_impl if not refused else None},
+                 {"completed": ans.get("completed"), "empty": (not ans.get("left")) if ans.get("completed") else None})
     finally:
         sc.close()
 
